@@ -185,10 +185,15 @@ class SchedETSD(ExtendedToStreamDecorator):
 def execute(kind, config, chooser, faults, iter_fault=None, interrupt=False):
     """kind: 'cts' or 'csts'.  -> Run object with everything the oracle needs."""
     sched = S.Scheduler(chooser, horizon=4000)
+    # "<config>+rerun": when the first run() was aborted, the same suite object is run again
+    # (fresh sub-suites, a fresh and well-behaved result)
+    rerun = config.endswith("+rerun")
+    config = config.split("+")[0]
     workers = make_workers(config)
     for w in workers:
         w.sched = sched
     r = Run()
+    r.rerun = None
     r.sched = sched
     r.workers = workers
     r.kind = kind
@@ -204,31 +209,35 @@ def execute(kind, config, chooser, faults, iter_fault=None, interrupt=False):
         queues.append(q)
         return q
 
+    current_workers = [workers]
+
     def gen():
-        for i, w in enumerate(workers):
+        for i, w in enumerate(current_workers[0]):
             if iter_fault is not None and i == iter_fault:
                 raise IterBoom("make_tests")
             yield w if kind == "cts" else (w, routes_of(config)[i])
         if iter_fault is not None and iter_fault >= len(workers):
             raise IterBoom("make_tests")
 
-    if kind == "cts":
-        target = c12.SharedTarget(sched, faults)
+    def wrap(tsr, i):
+        o = Observer(tsr, i)
+        r.observers.append(o)
+        return o
 
-        def wrap(tsr, i):
-            o = Observer(tsr, i)
-            r.observers.append(o)
-            return o
+    def make_suite():
+        # (built while the threading/Queue shims are in place: whatever the suite creates, and
+        # whenever it creates it, is under the scheduler's control)
+        if kind == "cts":
+            return ts_mod.ConcurrentTestSuite(unittest.TestSuite(), lambda s: gen(), wrap_result=wrap)
+        return ts_mod.ConcurrentStreamTestSuite(gen)
 
-        suite = ts_mod.ConcurrentTestSuite(unittest.TestSuite(), lambda s: gen(), wrap_result=wrap)
-    else:
-        target = StreamTarget(sched, faults)
-        suite = ts_mod.ConcurrentStreamTestSuite(gen)
+    target = c12.SharedTarget(sched, faults) if kind == "cts" else StreamTarget(sched, faults)
     r.target = target
     r.outcome = None
     r.unfinished_at_exit = None
 
     def main():
+        suite = make_suite()
         try:
             suite.run(target)
             r.outcome = ("returned",)
@@ -239,6 +248,20 @@ def execute(kind, config, chooser, faults, iter_fault=None, interrupt=False):
         # what is still running at the moment run() exits
         r.unfinished_at_exit = [t.id for t in sched.tasks if t.id != 0 and t.started and not t.finished]
         r.stopflags_at_exit = _stop_flags(r)
+        if rerun and r.outcome[0] == "raised":
+            workers2 = make_workers(config)
+            for w in workers2:
+                w.sched = sched
+            current_workers[0] = workers2
+            target2 = c12.SharedTarget(sched, False) if kind == "cts" else StreamTarget(sched, False)
+            try:
+                suite.run(target2)
+                outcome2 = ("returned",)
+            except S.SchedulerAbort:
+                raise
+            except BaseException as e:
+                outcome2 = ("raised", type(e).__name__, str(e)[:100])
+            r.rerun = (workers2, target2, outcome2)
 
     old_threading, old_queue, old_etsd = ts_mod.threading, ts_mod.Queue, testtools.ExtendedToStreamDecorator
     ts_mod.threading = shim
@@ -365,12 +388,38 @@ def split_blocks(events):
     return blocks
 
 
+def check_rerun(kind, config, r):
+    """The second run() of the same suite object (after an aborted first one) is a run like any other."""
+    problems = []
+    workers2, target2, outcome2 = r.rerun
+    if outcome2 != ("returned",):
+        problems.append(("rerun", "second run() of the same suite ended with %r" % (outcome2,)))
+    ref = reference(kind, config)
+    for i, w in enumerate(workers2):
+        if len(w.entries) != 1:
+            problems.append(("rerun", "second run: %r entered %d times" % (w, len(w.entries))))
+    if kind == "csts":
+        fake = Run()
+        fake.config = config
+        fake.workers = workers2
+        problems.extend(("rerun", m) for _, m in _check_csts_log(fake, ref, target2.log, None, 0))
+    else:
+        got = sorted(repr(b) for b in split_blocks([(n, p) for (_, n, p, _) in target2.log]))
+        want = sorted(repr(b) for evs in ref for b in split_blocks(evs))
+        if [g for g in got] != want:
+            problems.append(("rerun", "second run delivered %r, the sub-suites report %r" % (got, want)))
+    return problems
+
+
 def check_execution(kind, config, r):
     problems = []
     sched = r.sched
+    config = config.split("+")[0]
     if sched.deadlock:
         problems.append(("deadlock", sched.deadlock))
         return problems
+    if r.rerun is not None:
+        problems.extend(check_rerun(kind, config, r))
     for t in sched.tasks:
         # a worker thread dying with the injected fault (its result raised while the broken-runner
         # report itself was being delivered) is a double fault outside the statement
@@ -562,6 +611,14 @@ def plan(tier):
                 out.append((kind, "w2none", (2, 0), None, False))
                 out.append((kind, "w2same", (1, 1), None, False))
                 out.append((kind, "w2native", (1, 1), None, False))
+            if kind == "csts":
+                # (the caller's result raising aborts ConcurrentStreamTestSuite.run)
+                out.append((kind, "w1+rerun", (1, 1), None, False))
+                out.append((kind, "w2+rerun", (1, 1), None, False))
+            else:
+                # (for ConcurrentTestSuite: make_tests failing after its first sub-suite; the
+                # second run's make_tests fails too, so only the first run's leftovers matter)
+                pass
             # aborts: make_tests failing after k sub-suites, interrupt at queue.get
             out.append((kind, "w2", (2, 0), 0, False))
             out.append((kind, "w2", (2, 0), 1, False))
@@ -613,6 +670,8 @@ def run_shard(shard, tier, seed):
     def check(ch, r):
         problems = check_execution(kind, config, r)
         res.evaluations += 1
+        if r.rerun is not None:
+            res.count("second_runs_after_an_abort", 1)
         if (any(ch.cost) if isinstance(ch.cost, tuple) else ch.cost) or iter_fault is not None:
             res.distinct.add(obs_hash((label, _log_key(r), r.outcome)))
         if len(res.samples) < 1 and r.sched.preemptions >= 1:
